@@ -189,3 +189,34 @@ func viaHTTP(b *rig.B, m *refmodel.Log, ds []refmodel.D, cur uint64, rec *pbt.Re
 	}
 	return nil
 }
+
+// ---------------------------------------------------------------- RocksDB
+
+const ruleRocks = "the same oracle on the durable back-end: a real Balloon on a real RocksDBStore in an executor child, with close+reopen of store and balloon at drawn points; after every call every event (strided above 60) is queried at q=current, at the end all (e,q) pairs of logs up to 32 events (boundary versions above) and consistency pairs; answers cross the JSON wire form and are judged by the client verifier against the reference model's digests. Non-trivial: n>=2, a verified pair with q > version(e), and a reopen between the insertion of some event and a query about it; distinct = FNV-64 of the history."
+
+func TestRocksMembership(t *testing.T) {
+	rec := pbt.NewRec("C01", "TestRocksMembership", ruleRocks,
+		"digests used for verification are the reference model's (C04 ties the log's own to them)")
+	maxN := pbt.Scale(100, 400)
+	pbt.Run(t, rec, func(rt *rapid.T) rig.LogHistory {
+		if rapid.IntRange(0, 9).Draw(rt, "page-boundary") == 0 {
+			h := rig.DrawBigLog(rt, rapid.SampledFrom([]int{1001, 1300}).Draw(rt, "big-n"))
+			for i := 1; i < len(h.Calls); i++ {
+				h.Restarts = append(h.Restarts, i)
+			}
+			return h
+		}
+		distinct := rapid.IntRange(0, 4).Draw(rt, "distinct") != 0
+		return rig.DrawLog(rt, maxN, distinct, true)
+	}, func(h rig.LogHistory, rec *pbt.Rec) error {
+		cls := h.Classes()
+		st, _, err := rig.RunRocksBalloon(h, false, true)
+		rec.Case(h, len(h.Digests) >= 2 && st.Later > 0 && st.Reopens > 0, cls...)
+		rec.Sample(len(h.Digests), h)
+		rec.Count("pairs_verified", st.Pairs)
+		rec.Count("pairs_with_q_after_insertion", st.Later)
+		rec.Count("consistency_pairs_verified", st.Incr)
+		rec.Count("reopens", st.Reopens)
+		return err
+	})
+}
